@@ -281,6 +281,7 @@ STUB_IRQ = [("crate::cpu::interrupt_controller::InterruptController::request_int
 add("C17", "c17_update_step_64", "c17::update_step($S, 64)", stubs=(STUB_IRQ,), unwind=42, timeout=1500)
 add("C17", "c17_update_step_255", "c17::update_step($S, 255)", stubs=(STUB_IRQ,), unwind=42, timeout=3000, tier="thorough", note="36 min measured")
 add("C17", "c17_tcr_write_keeps_phase", "c17::tcr_write_keeps_phase($S)")
+add("C17", "c17_tcr_two_writes", "c17::tcr_two_writes($S)")
 add("C17", "c17_partition_lemma", "c17::partition_lemma($S)")
 
 # C15: one free harness per instruction source file (handlers of that file real, all others ghosted)
@@ -332,6 +333,41 @@ STUB_ELF = [("crate::elf::read_elf", "crate::harness::c11::ghost_read_elf")]
 for v in (0, 1):
     add("C11", f"c11_load_skeleton_v{v}", f"c11::load_skeleton($S, {v}, false)", stubs=(STUB_ELF,), unwind=44, timeout=5400, mem_gb=24, tier="quick" if v == 0 else "thorough")
     add("C12", f"c12_load_skeleton_v{v}", f"c11::load_skeleton($S, {v}, true)", stubs=(STUB_ELF,), unwind=44, timeout=5400, mem_gb=24)
+
+STUB_LINEFX = [
+    ("crate::bus::Bus::write", "crate::harness::c13::ghost_bus_write"),
+    ("crate::bus::Bus::write_port", "crate::harness::c13::ghost_write_port"),
+    ("crate::bus::Bus::new", "crate::harness::stubs::bus_new_small"),
+]
+for which, wn in (("F_U8", "u8"), ("F_IOPORT", "ioport")):
+    for nf in (3, 2, 4):
+        add("PROBE18", f"c18_parse_{wn}_fields{nf}", f"c18::parse_fields($S, c18::{which}, {nf})", stubs=(STUB_LINEFX,), unwind=11, native=False, timeout=1200)
+STUB_SCRIPT = [("crate::socket::Socket::pop_messages", "crate::harness::c18::ghost_pop_script")]
+C18_SCRIPTS = {
+    "one_store": [["T_U8"]],
+    "badcmd_then_store_one_batch": [["T_CMD3", "T_U8"]],
+    "store_port_one_batch": [["T_U8", "T_PORT"]],
+    "store_port_two_batches": [["T_U8"], ["T_PORT"]],
+}
+def _script(rows):
+    rows = [r + ["0"] * (2 - len(r)) for r in rows] + [["0"] * 2] * (4 - len(rows))
+    return "[" + ", ".join("[" + ", ".join(("c18::" + k) if k != "0" else "0" for k in r) + "]" for r in rows) + "]"
+for nm, rows in C18_SCRIPTS.items():
+    add("PROBE18", f"c18_run_{nm}", f"c18::run_script($S, {_script(rows)}, {len(rows)})", stubs=(STUB_RUN, STUB_LINEFX, STUB_SCRIPT), unwind=34, native=False, timeout=1800, mem_gb=20,
+        cbmc_args=("--max-field-sensitivity-array-size", "256"))
+
+for nm, uw in (("header", 20), ("program_headers", 20), ("section_headers", 24), ("symbols", 12), ("string_entry", 10)):
+    add("PROBE11", f"c11_parser_{nm}", f"c11p::{nm}($S)", unwind=uw, timeout=900)
+STUB_ELF2 = [("crate::elf::read_elf", "crate::harness::c11::ghost_read_elf_bytewise"),
+             ("crate::elf::string_table::parse_string_table_entry", "crate::harness::c11::ghost_string_entry")]
+add("PROBE11M", "c11_loadfs_v0_args0", "c11::load_skeleton_args($S, 0, false, Some(c11::ARGS0))", stubs=(STUB_ELF2,), unwind=562, timeout=2400, mem_gb=24,
+    cbmc_args=("--max-field-sensitivity-array-size", "1024"))
+for v in (0, 1):
+    for ai in (0, 1):
+        add("PROBE11L", f"c11_load_v{v}_args{ai}", f"c11::load_skeleton_args($S, {v}, false, Some(c11::ARGS{ai}))", stubs=(STUB_ELF,), unwind=44, timeout=2400, mem_gb=24)
+
+add("PROBE09", "c09_sym_write_probe_nodram", "c09::sym_write_probe($S, 0)", stubs=([("crate::bus::Bus::new", "crate::harness::stubs::bus_new_dram1")],), timeout=1500, mem_gb=20)
+add("PROBE09", "c09_sym_write_probe_dram4k", "c09::sym_write_probe($S, 4096)", stubs=([("crate::bus::Bus::new", "crate::harness::stubs::bus_new_dram4k")],), timeout=1500, mem_gb=20)
 
 # feasibility probe, not part of any property: ./check PROBE
 add("PROBE", "probe_c14_fold", "c14::probe_fold($S)", stubs=INSTR_STUBS, keep=["trapa"], unwind=6)
